@@ -7,7 +7,11 @@ model (coq/Text.v, coq/Dimacs.v):
  formulas   formulas of many families / transformation chains and hand-built ones
             -> the implementation writes them (with and without header / names, to a
             StringIO and to a file) -> the text must equal the model's text byte for
-            byte -> the implementation's reader and the model's reader must both give
+            byte, header fields and variable names with line breaks ("\n", "\r",
+            "\r\n") included (print_dimacs models the writer after the repair of D4;
+            a text equal to print_dimacs_as_found on such an input is the old defect
+            come back and is reported with its failing input)
+            -> the implementation's reader and the model's reader must both give
             back (n, clauses), under both newline conventions.  The shape of the text
             is also checked directly (one true problem line, comments, clause lines).
  texts      mostly valid texts with ONE mutation each, and fully random texts over the
@@ -17,6 +21,10 @@ model (coq/Text.v, coq/Dimacs.v):
             strip, print_Z on random tokens.
  unicode    exotic Unicode and raw bytes, implementation only: formula or ValueError.
  cli        (thorough) `cnfgen -q dimacs FILE` on a few texts.
+ cli-write  `cnfgen [-of dimacs] [-o FILE] <family> ...` and `cnfgen dimacs FILE` at
+            realistic sizes for every registered family (harness/fam_c0[123].py): the
+            bytes written must equal print_dimacs of the library object's header,
+            variable count and clauses.
 
 Any exception class other than ValueError, and any accepted text whose formula is
 not the one the (proved sound) model reads, is a failing input for the property."""
@@ -25,26 +33,27 @@ import os
 import re
 import subprocess
 import tempfile
+import time
 
 import lib
 from lib import cmd, Sym, import_impl, is_error
 
 META = dict(
-    technique='Coq theorems over a character-level model of writer and reader (dimacs_roundtrip_partial, print_shape_partial, '
-              'parse_sound; *_refuted witnesses for line breaks in header/names) + extracted-model differential check '
-              '(texts byte for byte, reader verdicts on mutated and random texts)',
+    technique='Coq theorems over a character-level model of writer and reader (dimacs_roundtrip, print_shape, parse_sound, for every '
+              'header and name list; *_refuted witnesses for the writer as found before the repair of D4) + extracted-model '
+              'differential check (texts byte for byte, reader verdicts on mutated and random texts, command-line output of every family)',
     category='proof',
-    text='Machine-checked theorems state, for every formula with literals in range, every header and name list without line '
-         'breaks and both newline conventions, that reading the written text gives back the number of variables and the clauses '
+    text='Machine-checked theorems state, for every formula with literals in range, every header and every list of variable names '
+         '(line breaks inside them included) and both newline conventions, that reading the written text gives back the number of variables and the clauses '
          'in order, that the output consists of comment lines, one problem line with the true counts and one line per clause, '
          'and, for every text, that an accepted text has exactly one problem line and denotes exactly the returned clauses with '
          'all literals in the declared range and the declared count; every other outcome of the model is ValueError. The model is '
          'tied to the code by comparing written texts byte for byte and reader verdicts (formula, or which ValueError at which '
          'line) on formulas of many families and on mutated / random texts.',
     note='Trusted: Coq kernel, extraction, OCaml driver, the harness. The model is hand-written and covers 8-bit characters; '
-         'agreement with the code is checked only on the inputs of the run (see input_distribution). Known deviation D4: a line '
-         'break in a header field or variable name is written raw (dimacs_header_newline_refuted). Integers of more than 4300 '
-         'digits are outside the theorems (Python refuses to print or read them).',
+         'agreement with the code is checked only on the inputs of the run (see input_distribution). D4 (a line break in a header '
+         'field or variable name written raw) is repaired in the code; the model follows the repaired writer and the old behaviour is '
+         'reported as a violation again. Integers of more than 4300 digits are outside the theorems (Python refuses to print or read them).',
     design_ref='5/C06',
 )
 RULE = ('formulas: one case per (formula, header?, names?, StringIO/file); texts: one case per (text, newline convention); a case '
@@ -201,6 +210,14 @@ ODD_TEXTS = [
 BREAK_TEXTS = ['two\nlines', 'cr\rinside', 'crlf\r\nhere', '\n', 'end\n', 'x\np cnf 1 0', 'x\n1 0']
 
 
+BREAK_ALPHA = ['\n', '\n', '\r', '\r', '\r\n', ' ', ' ', 'c', 'p', 'x', '1', '0', '-', ':', '\t', '\xe9', '\xa0', '\x85', '\x0b', '\x0c',
+               '\x1c', 'cnf', 'c ', '%']
+
+
+def break_text(r):
+    return ''.join(r.choice(BREAK_ALPHA) for _ in range(r.choice([1, 2, 3, 5, 8, 13])))
+
+
 def build_formulas(ctx, cnfgen, quick):
     """[(label, class, thunk)] -- thunks so that one failing generator does not stop the stream"""
     rng = ctx.rng
@@ -277,6 +294,25 @@ def build_formulas(ctx, cnfgen, quick):
             F.header['k' + txt] = 'v'
             return F
         add('line break in header key %d' % i, 'hand-break', brkk)
+
+    for i in range(40 if quick else 400):
+        def rbrk(seed=rng.randrange(1 << 30)):
+            import random
+            r = random.Random(seed)
+            F = CNF(description=break_text(r))
+            for _ in range(r.randint(0, 3)):
+                F.header[break_text(r)] = break_text(r)
+            for _ in range(r.randint(0, 3)):
+                try:
+                    F.new_variable(break_text(r))
+                except ValueError:      # a repeated name
+                    pass
+            if F.number_of_variables() < 2:
+                F.update_variable_number(2)
+            F.add_clause([1, -2])
+            F.add_clause([2])
+            return F
+        add('random fields with line breaks %d' % i, 'hand-break-random', rbrk)
 
     # random hand-built formulas
     for i in range(20 if quick else 120):
@@ -398,9 +434,16 @@ def run_formulas(ctx, cnfgen, quick):
         except Exception as e:  # noqa
             c['text'] = None
             c['wexc'] = [type(e).__name__, str(e)[:120]]
-        reqs.append(cmd('print_dimacs', opt(header_for_model(F) if c['header'] else None),
-                        opt(c['labels'] if c['names'] else None), c['n'], c['clauses']))
-    prints = ctx.model.batch(reqs)
+        margs = (opt(header_for_model(F) if c['header'] else None), opt(c['labels'] if c['names'] else None), c['n'], c['clauses'])
+        c['broken'] = has_break(F, c['header'], c['names'], c['labels'])
+        reqs.append(cmd('print_dimacs', *margs))
+        if c['broken']:
+            reqs.append(cmd('print_dimacs_as_found', *margs))
+    flat = iter(ctx.model.batch(reqs))
+    prints = []
+    for c in cases:
+        prints.append(next(flat))
+        c['as_found'] = next(flat) if c['broken'] else None
     # phase 2: read the implementation's text with both readers, both conventions
     reqs = []
     for c in cases:
@@ -416,7 +459,7 @@ def run_formulas(ctx, cnfgen, quick):
         key = (c['label'], c['header'], c['names'], c['to_file'])
         ctx.count('formulas', key, nontrivial=len(c['clauses']) > 0, sample=dict(descr, clauses='...'))
         ctx.tally('options', 'header=%s names=%s' % (c['header'], c['names']))
-        broken = has_break(c['F'], c['header'], c['names'], c['labels'])
+        broken = c['broken']
         ctx.tally('line break in header/name', broken)
         if c['text'] is None:
             ctx.disagreements_checked += 1
@@ -432,42 +475,41 @@ def run_formulas(ctx, cnfgen, quick):
             mpar = None
         defect = shape_defect(text, c['n'], c['clauses'])
         roundtrip_ok = got[0] == want and got[1] == want
-        if is_error(mp):
+        if is_error(mp) or (broken and is_error(c['as_found'])):
             ctx.violation('correspondence', 'model error', dict(input=descr, model=mp), False, site='model-error', cls='print')
             continue
         same_text = (mp == text)
-        if broken:
-            # class of the known deviation D4: either the code still behaves as the faithful model says (finding),
-            # or it has been repaired and the property holds on this input; anything else is a new break
-            if same_text and not (roundtrip_ok and defect is None):
-                ctx.violation('counterexample',
-                              'a line break inside a header field or variable name is written raw: the DIMACS output has a '
-                              'non-comment line that is neither the problem line nor a clause, and the reader does not give the formula back',
-                              dict(input=descr, text=text[:400], read_back=got, shape=defect,
-                                   theorem='dimacs_header_newline_refuted / print_shape_refuted'),
-                              True, site=FINDING_SITE, cls=FINDING_CLS)
-                continue
-            if roundtrip_ok and defect is None:
-                ctx.tally('line-break inputs on which the property holds', True)
-                continue
-            ctx.disagreements_checked += 1
-            ctx.violation('counterexample', 'round trip / shape fails on a header or name with a line break, and not the way the model predicts',
-                          dict(input=descr, text=text[:400], model_text=mp[:400], read_back=got, shape=defect), True,
-                          site='to_dimacs_file', cls='line-break-other')
-            continue
+        old_text = broken and c['as_found'] == text       # the writer as it was before the repair of D4
         if not roundtrip_ok or defect is not None:
             ctx.disagreements_checked += 1
             bad = got[0] if got[0] != want else got[1]
-            kind = 'raises-' + bad[1] if bad[0] == 'exc' else 'roundtrip' if not roundtrip_ok else 'shape'
-            ctx.violation('counterexample', 'DIMACS round trip or output shape fails: %s' % (defect or bad[:2]),
-                          dict(input=descr, text=text[:400], read_back=[g if g != want else 'same formula' for g in got], shape=defect),
-                          True, site='dimacs-roundtrip', cls=kind)
+            if old_text:
+                ctx.violation('counterexample',
+                              'a line break inside a header field or variable name is written raw again (the text is the one of '
+                              'print_dimacs_as_found): the DIMACS output has a non-comment line that is neither the problem line nor a '
+                              'clause%s' % ('' if roundtrip_ok else ', and cnfgen\'s own reader does not give the formula back'),
+                              dict(input=descr, text=text[:400], expected_text=mp[:400], read_back=got, shape=defect,
+                                   theorem='dimacs_roundtrip / print_shape hold of print_dimacs; dimacs_header_newline_refuted / '
+                                           'print_shape_refuted describe this text'),
+                              True, site=FINDING_SITE, cls=FINDING_CLS)
+            elif broken:
+                ctx.violation('counterexample', 'round trip / shape fails on a header or name with a line break: %s' % (defect or bad[:2]),
+                              dict(input=descr, text=text[:400], model_text=mp[:400], read_back=got, shape=defect), True,
+                              site='to_dimacs_file', cls='line-break-other')
+            else:
+                kind = 'raises-' + bad[1] if bad[0] == 'exc' else 'roundtrip' if not roundtrip_ok else 'shape'
+                ctx.violation('counterexample', 'DIMACS round trip or output shape fails: %s' % (defect or bad[:2]),
+                              dict(input=descr, text=text[:400], read_back=[g if g != want else 'same formula' for g in got], shape=defect),
+                              True, site='dimacs-roundtrip', cls=kind)
             continue
+        if broken:
+            ctx.tally('line-break inputs on which the property holds', True)
         if not same_text:
             ctx.disagreements_checked += 1
             i = next((j for j in range(min(len(mp), len(text))) if mp[j] != text[j]), min(len(mp), len(text)))
-            ctx.violation('correspondence', 'DIMACS text differs from the model (Dimacs.v print_dimacs) although it reads back correctly; '
-                          'theorems dimacs_roundtrip_partial / print_shape_partial no longer cover the code',
+            ctx.violation('correspondence', 'DIMACS text differs from the model (Dimacs.v print_dimacs) although it reads back correctly%s; '
+                          'theorems dimacs_roundtrip / print_shape no longer cover the code'
+                          % (' (it is the text of the writer before the repair of D4, harmless on this input)' if old_text else ''),
                           dict(input=descr, first_difference_at=i, implementation=text[max(0, i - 40):i + 60],
                                model=mp[max(0, i - 40):i + 60], correspondence='Dimacs.v print_dimacs <-> to_dimacs_file'),
                           False, site='to_dimacs_file', cls='text-differs')
@@ -910,6 +952,46 @@ def run_unicode(ctx, cnfgen, quick):
         ctx.tally('raw bytes verdict', v)
 
 
+def run_unicode_write(ctx, cnfgen, quick):
+    """header fields and variable names outside the 8-bit alphabet of the model (implementation only): the written text
+    must read back as the formula and have the documented shape, through a StringIO and through a file"""
+    CNF = cnfgen.CNF
+    rng = ctx.rng
+    chars = [ch for ch in EXOTIC if not 0xd800 <= ord(ch) <= 0xdfff] + ['\n', '\r', '\r\n', ' ', 'c', 'p', '1', '0', 'x', '\u0085', '\u000c']
+    for i in range(60 if quick else 600):
+        def txt():
+            return ''.join(rng.choice(chars) for _ in range(rng.choice([1, 2, 4, 7])))
+        F = CNF(description=txt())
+        F.header[txt()] = txt()
+        for _ in range(rng.randint(1, 3)):
+            try:
+                F.new_variable(txt())
+            except ValueError:
+                pass
+        if F.number_of_variables() < 2:
+            F.update_variable_number(2)
+        F.add_clause([1, -2])
+        F.add_clause([])
+        n, clauses = F.number_of_variables(), [list(c) for c in F]
+        for to_file in (False, True):
+            descr = dict(header=[[str(k), str(v)] for k, v in F.header.items()], names=list(F.all_variable_labels()),
+                         n=n, clauses=clauses, via='file' if to_file else 'StringIO')
+            ctx.count('unicode-write', (i, to_file), True, sample=descr)
+            try:
+                text = impl_write(F, True, True, to_file)
+            except Exception as e:  # noqa
+                ctx.violation('counterexample', 'writing a formula with Unicode header / names to DIMACS raised %s' % type(e).__name__,
+                              dict(input=descr, implementation=[type(e).__name__, str(e)[:120]]), True, site='to_dimacs_file',
+                              cls='unicode-raises-' + type(e).__name__)
+                continue
+            got = [impl_read(CNF, text, False), impl_read(CNF, text, True)]
+            defect = shape_defect(text, n, clauses)
+            if got != [['ok', n, clauses]] * 2 or defect is not None:
+                ctx.disagreements_checked += 1
+                ctx.violation('counterexample', 'DIMACS round trip or shape fails with Unicode header / names: %s' % (defect or got),
+                              dict(input=descr, text=text[:400], read_back=got, shape=defect), True, site='to_dimacs_file', cls='unicode-roundtrip')
+
+
 # --------------------------------------------------------------------------
 # command line (thorough): cnfgen -q dimacs FILE
 # --------------------------------------------------------------------------
@@ -946,6 +1028,211 @@ def run_cli(ctx, cnfgen):
                               dict(input=dict(text=t, mutation=mu), implementation=[r.returncode, err[-300:]], model=m), True,
                               site='cli-dimacs', cls='malformed-accepted' if r.returncode == 0 else 'traceback')
 
+# --------------------------------------------------------------------------
+# command line, writing: every registered family at realistic sizes
+# --------------------------------------------------------------------------
+def cli_child(argv, stdin_text=None):
+    """run the real command line in a fresh interpreter: (exit code, stdout bytes, stderr text)"""
+    env = dict(os.environ, PYTHONPATH=lib.REPO, CNFGEN_VERIF='1')
+    code = 'import sys; sys.argv = %r; from cnfgen.clitools.cnfgen import main; main()' % (argv,)
+    r = subprocess.run([lib.PY, '-W', 'ignore', '-c', code], cwd=lib.REPO, env=env, stdout=subprocess.PIPE, stderr=subprocess.PIPE,
+                       input=stdin_text, timeout=600)
+    return r.returncode, r.stdout, r.stderr.decode('utf-8', 'replace')
+
+
+def run_cli_write(ctx, cnfgen, quick):
+    """`cnfgen <family> ...` with the output options that select DIMACS (default, -of dimacs, -o FILE.cnf, -o FILE -of dimacs,
+    -q, --varnames), then `cnfgen dimacs FILE` on the written file: the bytes written by the real command line must be
+    print_dimacs (model) of the header, names, variable count and clauses of the formula object the command line builds."""
+    import importlib
+    import shutil
+    from concurrent.futures import ThreadPoolExecutor
+    from cnfgen.clitools.cnfgen import cli as cnfgen_cli
+    fams = []
+    for m in ('fam_c01', 'fam_c02', 'fam_c03'):
+        try:
+            fams += importlib.import_module(m).FAMILIES
+        except ImportError:
+            ctx.note('registry %s not present' % m)
+    if not fams:
+        return
+    per_family = 2 if quick else 4
+    budget = 600000 if quick else 1500000      # clauses printed by the model over the whole stream
+    cap = 60000 if quick else 200000           # per instance (the char-list model needs ~0.5 kB per clause)
+    tmp = tempfile.mkdtemp(prefix='c06cli-')
+    jobs = []
+    ndirs = 0
+    t_start = time.time()
+
+    def formula_of(argv):
+        """the formula object the command line builds (in-process, nothing is written)"""
+        try:
+            return cnfgen_cli(['cnfgen'] + argv, mode='formula')
+        except BaseException as e:  # noqa -- CLIError, SystemExit of argparse: the command line refuses these parameters
+            try:
+                from cnfgen.clitools import msg
+                msg._prefix = ''          # msg_prefix() does not restore its state after an exception
+            except Exception:  # noqa
+                pass
+            return None
+
+    for fam in fams:
+        if not fam.get('cli'):
+            continue
+        ps = fam['params'](ctx.rng, 'quick' if quick else 'thorough')
+        if quick:
+            cands = [q for q in ps if q.get('big')][:1] + ps[-3:] + ps[len(ps) // 3:len(ps) // 3 + 1]
+        else:
+            cands = [q for q in ps if q.get('big')][:4] + ps[-8:] + ps[len(ps) // 3:len(ps) // 3 + 2]
+        built = []
+        for q in cands:
+            ndirs += 1                      # one directory per candidate: `cli` writes graph files with fixed names
+            sub = os.path.join(tmp, 'j%d' % ndirs)
+            os.makedirs(sub, exist_ok=True)
+            try:
+                argv = fam['cli'](q, sub)
+            except Exception:  # noqa
+                argv = None
+            if argv is None:
+                continue
+            argv = [str(a) for a in argv]
+            F = formula_of(argv)
+            if F is None:
+                ctx.tally('cli-write: command line refuses the parameters', fam['name'])
+                continue
+            if any(b[1] == argv for b in built):
+                continue
+            built.append((len(F), argv, F, sub))
+        if any(b[0] <= cap for b in built):
+            built = [b for b in built if b[0] <= cap]
+        built.sort(key=lambda b: -b[0])
+        for size, argv, F, sub in built[:per_family]:
+            jobs.append(dict(fam=fam['name'], argv=argv, F=F, sub=sub))
+    # the variants, rotated over the jobs (all four for every job in the thorough tier)
+    variants = ['default', 'of-dimacs-varnames', 'quiet-o-file.cnf', 'o-file-of-dimacs-varnames']
+    runs = []
+    spent = 0
+    for i, j in enumerate(jobs):
+        for v in ([variants[i % 4]] if quick else [variants[i % 4], variants[(i + 2) % 4]]):
+            if len(j['F']) > cap or (spent + len(j['F']) > budget and len(j['F']) > 20000):
+                ctx.tally('cli-write skipped (size budget of the stream)', j['fam'])
+                continue
+            spent += len(j['F'])
+            out = os.path.join(j['sub'], 'out-%d.cnf' % len(runs)) if v == 'quiet-o-file.cnf' else os.path.join(j['sub'], 'out-%d' % len(runs))
+            opts = {'default': [], 'of-dimacs-varnames': ['-of', 'dimacs', '--varnames'], 'quiet-o-file.cnf': ['-q', '-o', out],
+                    'o-file-of-dimacs-varnames': ['-o', out, '-of', 'dimacs', '--varnames']}[v]
+            runs.append(dict(j, variant=v, opts=opts, out=out if '-o' in opts else None,
+                             header='-q' not in opts, names='--varnames' in opts))
+    t_sel = time.time()
+    with ThreadPoolExecutor(max_workers=4) as ex:
+        results = list(ex.map(lambda r: cli_child(['cnfgen'] + r['opts'] + r['argv']), runs))
+    t_run = time.time()
+    reqs = []
+    for r, (code, out, err) in zip(runs, results):
+        F = r['F']
+        r['n'], r['clauses'] = F.number_of_variables(), [list(c) for c in F]
+        r['labels'] = list(F.all_variable_labels()) if r['names'] else None
+        F.header['command line'] = 'cnfgen ' + ' '.join(r['opts'] + r['argv'])      # as cli() records it for this argv
+        r['hdr'] = header_for_model(F) if r['header'] else None
+        r['code'], r['err'] = code, err
+        if r['out'] is not None:
+            try:
+                with open(r['out'], 'r', newline='', encoding='utf-8') as f:
+                    r['text'] = f.read()
+            except OSError:
+                r['text'] = None
+            r['stdout'] = out.decode('utf-8', 'replace')
+        else:
+            r['text'] = out.decode('utf-8', 'replace')
+            r['stdout'] = ''
+        reqs.append(cmd('print_dimacs', opt(r['hdr']), opt(r['labels']), r['n'], r['clauses']))
+        reqs.append(cmd('parse_dimacs', True, r['text'] if r['text'] is not None and latin1(r['text']) else ''))
+    reps = []
+    for k in range(0, len(reqs), 40):          # 20 command lines per driver call
+        reps.extend(ctx.model.batch(reqs[k:k + 40]))
+    reread = []
+    for k, r in enumerate(runs):
+        mp, mr = reps[2 * k], reps[2 * k + 1]
+        descr = dict(argv=['cnfgen'] + r['opts'] + r['argv'], family=r['fam'], variant=r['variant'], n=r['n'], clauses='%d clauses' % len(r['clauses']))
+        ctx.count('cli-write', (r['fam'], tuple(r['opts'] + r['argv'])), len(r['clauses']) > 0, sample=descr)
+        ctx.tally('cli-write family', r['fam'])
+        ctx.tally('cli-write variant', r['variant'])
+        ctx.tally('cli-write clauses', '0' if not r['clauses'] else '1-999' if len(r['clauses']) < 1000 else '1000-99999' if len(r['clauses']) < 100000 else '100000+')
+        if r['code'] != 0 or 'Traceback' in r['err'] or r['text'] is None:
+            ctx.disagreements_checked += 1
+            ctx.violation('counterexample', 'the command line exits with %d%s on parameters for which it builds a formula' %
+                          (r['code'], ' and a traceback' if 'Traceback' in r['err'] else ''),
+                          dict(input=descr, implementation=[r['code'], r['err'][-400:]]), True, site='cli-write', cls='exit-%d' % r['code'])
+            continue
+        if is_error(mp) or is_error(mr):
+            ctx.violation('correspondence', 'model error', dict(input=descr, model=[mp if is_error(mp) else 'ok', mr if is_error(mr) else 'ok']),
+                          False, site='model-error', cls='cli-write')
+            continue
+        if r['out'] is not None and r['stdout'] != '':
+            ctx.violation('counterexample', 'with -o FILE the command line also writes to standard output', dict(input=descr, stdout=r['stdout'][:200]),
+                          True, site='cli-write', cls='stdout-not-empty')
+            continue
+        if mp != r['text']:
+            ctx.disagreements_checked += 1
+            i = next((q for q in range(min(len(mp), len(r['text']))) if mp[q] != r['text'][q]), min(len(mp), len(r['text'])))
+            if mr != ['ok', r['n'], r['clauses']]:
+                ctx.violation('counterexample', 'the DIMACS text written by the command line does not denote the formula it built '
+                              '(verified reader: %r)' % (mr[:2],), dict(input=descr, first_difference_at=i, implementation=r['text'][max(0, i - 40):i + 80],
+                                                                        model=mp[max(0, i - 40):i + 80], theorem='parse_sound'), True,
+                              site='cli-write', cls='denotation')
+            else:
+                ctx.violation('correspondence', 'the DIMACS text written by the command line differs from the model (Dimacs.v print_dimacs)',
+                              dict(input=descr, first_difference_at=i, implementation=r['text'][max(0, i - 40):i + 80], model=mp[max(0, i - 40):i + 80],
+                                   correspondence='Dimacs.v print_dimacs <-> cnfgen command line output'), False, site='cli-write', cls='text-differs')
+            continue
+        if r['out'] is not None:
+            reread.append(r)
+    # `cnfgen dimacs FILE` on the files just written: the same variables and clauses, written again
+    reread = reread[:6] if quick else reread[:60]
+    rr = []
+    for i, r in enumerate(reread):
+        opts = [[], ['-q'], ['--varnames']][i % 3]
+        argv = opts + ['dimacs', r['out']]
+        F2 = formula_of(argv)
+        rr.append(dict(r=r, argv=argv, F2=F2, header='-q' not in opts, names='--varnames' in opts))
+    with ThreadPoolExecutor(max_workers=4) as ex:
+        results = list(ex.map(lambda x: cli_child(['cnfgen'] + x['argv']), rr))
+    reqs = []
+    for x in rr:
+        F2 = x['F2']
+        if F2 is None:
+            reqs.append(cmd('print_Z', 0))
+            continue
+        F2.header['command line'] = 'cnfgen ' + ' '.join(x['argv'])
+        reqs.append(cmd('print_dimacs', opt(header_for_model(F2) if x['header'] else None),
+                        opt(list(F2.all_variable_labels()) if x['names'] else None), F2.number_of_variables(), [list(c) for c in F2]))
+    reps = ctx.model.batch(reqs) if reqs else []
+    for x, (code, out, err), mp in zip(rr, results, reps):
+        r = x['r']
+        descr = dict(argv=['cnfgen'] + x['argv'], file_written_by=['cnfgen'] + r['opts'] + r['argv'], n=r['n'], clauses='%d clauses' % len(r['clauses']))
+        ctx.count('cli-reread', tuple(x['argv']), len(r['clauses']) > 0, sample=descr)
+        text = out.decode('utf-8', 'replace')
+        F2 = x['F2']
+        if F2 is None or code != 0 or 'Traceback' in err:
+            ctx.disagreements_checked += 1
+            ctx.violation('counterexample', '`cnfgen dimacs FILE` refuses (exit %d) a file that `cnfgen -o FILE` wrote' % code,
+                          dict(input=descr, implementation=[code, err[-400:]]), True, site='cli-dimacs', cls='rejects-own-output')
+            continue
+        if [F2.number_of_variables(), [list(c) for c in F2]] != [r['n'], r['clauses']]:
+            ctx.disagreements_checked += 1
+            ctx.violation('counterexample', '`cnfgen dimacs FILE` reads another formula than the one `cnfgen -o FILE` wrote',
+                          dict(input=descr, read=[F2.number_of_variables(), len(F2)]), True, site='cli-dimacs', cls='formula')
+            continue
+        if mp != text:
+            ctx.disagreements_checked += 1
+            i = next((q for q in range(min(len(mp), len(text))) if mp[q] != text[q]), min(len(mp), len(text)))
+            ctx.violation('correspondence', 'the text written by `cnfgen dimacs FILE` differs from the model (Dimacs.v print_dimacs)',
+                          dict(input=descr, first_difference_at=i, implementation=text[max(0, i - 40):i + 80], model=mp[max(0, i - 40):i + 80]),
+                          False, site='cli-dimacs', cls='text-differs')
+    shutil.rmtree(tmp, ignore_errors=True)
+    ctx.note('cli-write: %.0f s choosing instances, %.0f s running %d command lines, %.0f s comparing'
+             % (t_sel - t_start, t_run - t_sel, len(runs), time.time() - t_run))
+
 
 def run(ctx):
     cnfgen = import_impl()
@@ -954,10 +1241,14 @@ def run(ctx):
     run_formulas(ctx, cnfgen, quick)
     run_texts(ctx, cnfgen, quick)
     run_unicode(ctx, cnfgen, quick)
+    run_unicode_write(ctx, cnfgen, quick)
     if not quick:
         run_cli(ctx, cnfgen)
+    run_cli_write(ctx, cnfgen, quick)
     ctx.assumptions.append('integers of more than 4300 digits: Python refuses to print them; theorems carry `printable`')
-    ctx.assumptions.append('characters above 255 are outside the model (robustness stream only)')
+    ctx.assumptions.append('characters above 255 are outside the model (robustness streams only: reader on exotic texts, writer on exotic '
+                           'header fields / names; lone surrogates in variable names are excluded -- writing them to a named file raises '
+                           'UnicodeEncodeError, header fields are protected by encode("ascii","replace"))')
     if TMPDIR:
         import shutil
         shutil.rmtree(TMPDIR, ignore_errors=True)
